@@ -16,6 +16,8 @@ func init() {
 				What: "grammar, no exponent, exact value for prec<=0, half-ulp for prec>0, never longer, result is a sub-slice, guard byte untouched, no panic (machine-integer semantics incl. wrap-around)"},
 			{Harness: modPath + ".specHarnessNumber", For: modPath + ".Number", QuickN: 5, ThoroughN: 7,
 				What: "same for Number, including the four print forms and exponent arithmetic"},
+			{Harness: modPath + ".specHarnessNumberExp", For: modPath + ".Number", QuickN: 8, ThoroughN: 10,
+				What: "the same clauses on the family D+.D+eD (digits moved across the dot, print case 1), explored deeper than the full lexeme space"},
 		},
 		Custom:  []string{"partial"},
 		Partial: []string{modPath + ".Number"},
